@@ -126,7 +126,10 @@ def gen_T02():
     ad = usrc('add', 'hostmask')
     need('alreadyThere = hostmask in user.hostmasks' in ad and 'if not alreadyThere: user.removeHostmask(hostmask)' in ad,
          'User.hostmask.add: rollback of the added mask changed')
-    for cmd, inner in (('password', 'set'), ('secure', 'set')):
+    sec = usrc('secure', 'set')
+    need('secure = user.secure' in sec and 'except ircdb.DuplicateHostmask: user.secure = secure' in sec,
+         'User.set.secure no longer restores the secure flag when setUser refuses')
+    for cmd, inner in (('password', 'set'),):
         need('DuplicateHostmask' not in usrc(cmd, inner) and 'except ValueError' not in usrc(cmd, inner),
              'User.set.%s gained a setUser failure handler (model: no rollback)' % cmd)
     # Admin.capability.add: single-token test
